@@ -18,6 +18,9 @@ Code ↔ model map
 * `types/hashtype.go Hash.ToString` (`%p`, not alt: `{`, `k => v` separated by `, `, `}`)          → `printVal (.hash _)`
 * `types/types.go TypeToString / basicTypeToString` (name, then `Parameters()` rendered as an array in the subsequent
   context: `[`, `, `, `]`)                                                                            → `printVal (.tyx _ _)`
+* `types/objecttype.go ObjectToString` (type name, then the init hash with the `(` delimiter: `Name(`, `k => v` separated
+  by `, `, `)`) — the WRITTEN form of an object instance; which attributes the init hash holds (`makeValueHash`) and what
+  `new` makes of the parsed call are the business of the Object model (C17)                           → `printVal (.obj _ _)`
 -/
 namespace Pcore.Syntax
 
@@ -32,6 +35,7 @@ inductive Val where
   | arr (vs : List Val)
   | hash (es : List (Val × Val))
   | tyx (name : Str) (params : Option (List Val))   -- a type expression: `Name` or `Name[p, …]` (see Model/Types.lean)
+  | obj (name : Str) (init : List (Val × Val))      -- an object instance as it is written: `Name('attr' => v, …)`
   deriving Repr, Inhabited
 
 mutual
@@ -47,6 +51,7 @@ def printVal : Val → Str
   | .hash es => '{' :: (printEntries es ++ ['}'])
   | .tyx n none => n
   | .tyx n (some ps) => n ++ ('[' :: (printVals ps ++ [']']))
+  | .obj n es => n ++ ('(' :: (printEntries es ++ [')']))
 def printVals : List Val → Str
   | [] => []
   | [v] => printVal v
@@ -71,6 +76,8 @@ def exprOf : Val → Expr
   | .hash es => .hash (entriesOf es)
   | .tyx n none => .dtype n none
   | .tyx n (some ps) => .dtype n (some (exprsOf ps))
+  | .obj n [] => .call (some "new".toList) [.str n]
+  | .obj n (e :: es) => .call (some "new".toList) [.str n, .hash (entriesOf (e :: es))]
 def exprsOf : List Val → List Expr
   | [] => []
   | v :: vs => exprOf v :: exprsOf vs
